@@ -334,6 +334,9 @@ func (s *Scen) aggHistories(tier string, rng *rand.Rand) []*History {
 	if s.Big {
 		nCorrupt = 2
 	}
+	if s.Name == "p0lag" {
+		nHonest, nCorrupt = 4, 1
+	}
 	mk := func(c csite) (attSite, *aggMsg, []int, []int, bool) {
 		sel, non := s.aggregatorPositions(c.head, c.slot, c.index)
 		if len(sel) == 0 {
